@@ -9,4 +9,4 @@ Extraction "compilemodel.ml"
   fd_name fd_params fd_ret fd_body fd_catches fd_catch_all
   N_of_opcode opcode_of_N
   wrap32 run_program
-  compile_func func_in_F1 run_func.
+  compile_func func_in_F run_func print_addr.
